@@ -49,7 +49,8 @@ def _make_heap(init):
     D = ObjectMeta("D", (C,), cd, **kwargs)
     F = ObjectMeta("F", (C,), ObjectClassDict(), **drive.kwargs_of(_fixkw(init["init"]["fkw"])))
     N = drive.build_element(_fix(heap0["N"]))
-    return {"E": E, "C": C, "D": D, "F": F, "N": N}
+    U = drive.build_element(_fix(heap0["U"]))
+    return {"E": E, "C": C, "D": D, "F": F, "N": N, "U": U}
 
 
 def _fixkw(kw):
@@ -106,6 +107,8 @@ def _apply(objs, op, values):
         drive.call(o, {})
     elif name == "delprop":
         del o.properties[arg[0]]
+    elif name == "setelems":
+        o.elements = [drive.build_element(_fix(x)) for x in arg]
     elif name == "moveprop":
         o.properties[arg[1]] = o.properties.pop(arg[0])
     elif name == "togglereq":
@@ -242,7 +245,10 @@ def replay_history(task):
         Gf = ObjectMeta("Gf", (Pf,), ObjectClassDict(), additionalProperties=True)
         reopen = dict(parent=drive.project_element(Pf), child=drive.project_element(Gf),
                       kw={"additionalPropertiesB": True}, props=[])
-        rec["merges"] = [reopen,
+        # three levels: D overrides C's property `a`; a grandchild of C through D must see D's version
+        G2 = ObjectMeta("G2", (objs["D"],), ObjectClassDict())
+        chain = dict(parent=drive.project_element(objs["D"]), child=drive.project_element(G2), kw={}, props=[])
+        rec["merges"] = [reopen, chain,
             dict(parent=drive.project_element(P), child=drive.project_element(G), kw={}, props=[]),
             dict(parent=drive.project_element(P), child=drive.project_element(H), kw=hkw,
                  props=[_fixp(p) for p in init["init"]["hprops"]])]
@@ -382,7 +388,7 @@ def sweep_state(st):
 
 # ------------------------------------------------------------------ driver
 def _heap_tla(h):
-    return "[" + ", ".join(f"{x} |-> {tlajson_to_tla(h[x])}" for x in ("E", "C", "D", "F", "N")) + "]"
+    return "[" + ", ".join(f"{x} |-> {tlajson_to_tla(h[x])}" for x in ("E", "C", "D", "F", "N", "U")) + "]"
 
 
 def _flags_tla(f):
@@ -473,7 +479,7 @@ def run(pid, tier, replay_file=None):
         ops[op["op"] + ":" + op["x"]] += 1
         # drift against the model's predicted heap / outcome
         try:
-            same_heap = all(drive.norm_elem(rec["post"][x]) == drive.norm_elem(_fix(st["heap"][x])) for x in ("E", "C", "D", "F", "N"))
+            same_heap = all(drive.norm_elem(rec["post"][x]) == drive.norm_elem(_fix(st["heap"][x])) for x in ("E", "C", "D", "F", "N", "U"))
         except Exception:  # noqa
             same_heap = False
         if not same_heap:
@@ -481,7 +487,8 @@ def run(pid, tier, replay_file=None):
         if op["op"] == "validate" and not _same(rec["out"], st["last"]):
             drift["outcome"] += 1
         arg = op["arg"]
-        arg_t = tlajson_to_tla(_fixp(arg)) if op["op"] in ("putprop", "updateprop") else tlajson_to_tla(arg)
+        arg_t = (tlajson_to_tla(_fixp(arg)) if op["op"] in ("putprop", "updateprop")
+                 else tlajson_to_tla([_fix(x) for x in arg]) if op["op"] == "setelems" else tlajson_to_tla(arg))
         events.append((eid, '[id |-> %d, op |-> %s, x |-> %s, arg |-> %s, pre |-> %s, post |-> %s, out |-> %s, '
                             'again |-> %s, fresh |-> %s, freshspec |-> %s, flat |-> %s, flags |-> %s, pure |-> %s]'
                        % (eid, codec.tla_str(op["op"]), codec.tla_str(op["x"]), arg_t, _heap_tla(rec["pre"]),
@@ -638,6 +645,8 @@ def _h(hist):
         a = op["arg"]
         if op["op"] in ("putprop", "updateprop"):
             a = a["attr"] + ("!" if a["required"] else "") + ":" + a["elem"]["cls"]
+        elif op["op"] == "setelems":
+            a = "+".join(x["cls"] for x in a)
         elif op["op"] == "validate":
             a = "v%d" % a[1]
         else:
